@@ -9,6 +9,7 @@ import (
 
 	"verifsim/kernel"
 
+	_ "verifsim/engines/faultsim"
 	_ "verifsim/engines/mapsim"
 )
 
